@@ -202,7 +202,8 @@ def follower_test(ctx, prog, rule):
            how='accepted followers = {NUL, LF, #, space, tab}')
     # start-of-line test: content start or preceded by '\n'
     prev = set()
-    for n in FE.body.walk():
+    from engine import inline as _inl
+    for n in _inl.inlined(prog, FE).body.walk():      # a file-local "is at line start" predicate is looked at in place
         if n.k == 'BinaryOperator' and n['op'] in ('==', '!='):     # `p[-1] != LF -> not this one` is the same test
             for x, y in ((n.ch[0], n.ch[1]), (n.ch[1], n.ch[0])):
                 sx = strip(x)
